@@ -61,6 +61,69 @@ CHECKS = {
              "skipped.  Dither's moments are a distributional clause: sampled, reported under not_decided.",
         technique="TLA+ model checking (TLC) of SpectrumWalk (impl=torch) + replay of specification-exported tables through the torch modules",
         design="6 C14"),
+    "C08": dict(
+        text="TLC checks Alias.tla: for every registration sequence (<=4/5 classes, own alias subsets or inherited) and every (root, alias) "
+             "query the stack walk of alias.py, one action per pop, returns a matching descendant-or-self, ValueError exactly when none "
+             "exists, terminates, and agrees with 'last registered wins' except in the exactly characterised cross-branch case (known "
+             "finding).  Binding: every such class table is created on a real AliasedFactory root with type() and every query result is "
+             "validated by TLC (TraceAlias); the live registry of the six families is reflected into the same trace format; the "
+             "alias_factory_subclass_from_arg table (instances, strings, alias/name precedence, immutable mappings); JSON-round-tripped "
+             "nested configurations against explicit construction, bitwise.",
+        note="Known finding alias-cross-branch is reported as KNOWN-FINDING only when the returned class is exactly what the documented "
+             "walk yields and the later match lies across sibling branches.  Live-registry registration order across branches is not "
+             "observable (only per-parent __subclasses__() order).",
+        technique="TLA+ model checking (TLC) of the alias walk + batched trace validation of real class trees",
+        design="6 C08"),
+    "C15": dict(
+        text="PostLayout.tla defines Stack and Deltas declaratively as index maps (formal linear combinations of input cells over a "
+             "common denominator); TLC checks the k-fold delta filter equals k applications of the Kaldi first-order recursion on an "
+             "edge-extended sequence, the 2-D reshape rule equals the N-D rule, and the shape rule.  Binding (spec -> code): TLC "
+             "exports, for thousands of cases over shapes (empty / singleton axes), axes (negative too), num_deltas, context windows, "
+             "pad modes, num_vectors, the output shape and per-cell combination; the real apply() is compared cell by cell on "
+             "arange-filled and random integer tensors in int16 / float32 / float64, with input bytes and in_place checked.",
+        note="Cases are a seeded sample (2500 quick / 30000 thorough) of the enumerated space.  Integer dtypes: truncation toward zero "
+             "with a 1e-9 guard around exact integers.",
+        technique="TLA+ specification evaluated by TLC (constant level) and replayed cell by cell on the real code",
+        design="6 C15"),
+    "C16": dict(
+        text="TLC checks Standardize.tla: after every sequence of vector / tensor accumulate, save and load calls the statistics are "
+             "those of the bag accumulated (independent of split, order and call kind), a dimension mismatch is ValueError and changes "
+             "nothing.  Binding: random call sequences on real instances (five tensor layouts / axes, three dtypes, read-only inputs) "
+             "validated event by event by TLC (TraceStandardize, with the model invariants evaluated on the observed executions); "
+             "apply() compared with (x-mean)/std from the exact integer statistics; permutations / splits of one bag must apply "
+             "bit-identically; the no-statistics rule over shapes with singleton axes.",
+        note="Instance statistics are observed through the private _stats array (exact integers); apply() is compared independently.",
+        technique="TLA+ model checking (TLC) + batched trace validation of recorded call sequences",
+        design="6 C16"),
+    "C17": dict(
+        text="The file half of Standardize.tla: what each file kind holds after every save (first unused arr_N, explicit key, overwrite "
+             "flag as documented), what load returns, repeatability, ValueError without statistics; the inverted-flag variant is "
+             "refuted by TLC (canary).  Binding: random save / load / accumulate sequences on real files in a scratch directory, file "
+             "inspected with numpy after every save, validated by TLC; every sign pattern x scale x target kind reloaded and compared "
+             "bitwise through apply().",
+        note="Loads of a missing npz key are not generated (unspecified).  Raw files are reloaded with force_as='file' as the repository's own test does.",
+        technique="TLA+ model checking (TLC) + batched trace validation against real files",
+        design="6 C17"),
+    "C18": dict(
+        text="TLC checks PreOps.tla: Preemphasize.apply over a heap of arrays as the code shapes it (which object is worked on and "
+             "returned, right-hand side evaluated first) against the recurrence, result dtype, input-untouched and only-the-input-may-"
+             "change clauses; the recursive-filter variant is refuted (canary); consequences of the dither law.  Binding: random call "
+             "sequences on shared real arrays with object identities and every held array snapshotted, validated by TLC "
+             "(TracePreOps); bitwise comparison with the float64 recurrence cast back, for fractional coefficients, five dtypes, both "
+             "in_place settings, read-only inputs, lengths 0..6 and 1000; Dither = x + coeff * seeded noise; the torch functional forms.",
+        note="'Zero mean, standard deviation coeff' is distributional: assumed of numpy.random.normal / torch.randn, sampled and reported under not_decided.",
+        technique="TLA+ model checking (TLC) + batched trace validation + exact float comparison",
+        design="6 C18"),
+    "C20": dict(
+        text="Circshift.tla in exact Z_D arithmetic: TLC evaluates every (D, impulse position, shift in -2D..2D, start, length incl. "
+             "wrapping, given / defaulted dft_size) and checks the implementation-shaped operator (statement order of the code) equals "
+             "the shift theorem and never fails on the documented default; the pre-repair order is refuted (canary).  Binding: every "
+             "exported case replayed on the real function with impulse spectra and both copy flags; random spectra against "
+             "IDFT/roll/DFT; window classes for every width against numpy.<window>(w) over the exported area table; gamma arg-max; "
+             "Hz/angle; gauss_quant monotone, affine, and within 1e-6 sigma of math.erfc.",
+        note="Not decided by the specification (numeric clauses, evaluated by the harness only): 'sums to 1 up to O(1/width)' and gauss_quant's accuracy.",
+        technique="TLA+ specification evaluated exhaustively by TLC (constant level) + replay of exported cases",
+        design="6 C20"),
 }
 
 NOT_APPLICABLE = {
